@@ -33,6 +33,15 @@ func govcCheckCommonPrefix(paths []string) (msg string) {
 	}()
 	res := commonPrefix(append([]string(nil), paths...))
 	if res == "" {
+		allAbs := true
+		for _, p := range paths {
+			if len(p) == 0 || p[0] != '/' {
+				allAbs = false
+			}
+		}
+		if allAbs {
+			return "commonPrefix of absolute paths is empty (the root \"/\" is a common ancestor)"
+		}
 		return ""
 	}
 	for _, p := range paths {
